@@ -381,6 +381,19 @@ class RustCheck:
                     continue
                 if gated(structs[tn]["attrs"]) != bool(r.get("proposed")):
                     self.fail("feature gate differs from 'proposed'|message struct", {"method": m, "struct": tn})
+                # the message struct carries its params with the declared type (required when the
+                # params structure has properties of its own or inherited ones)
+                pt = r.get("params")
+                if isinstance(pt, dict) and pt["kind"] == "reference" and pt["name"] in mm.S and mm.flat_props(pt["name"]):
+                    try:
+                        flds = {wire_name(f, serde_args(structs[tn]["attrs"])): f for f in structs[tn]["fields"]}
+                    except ValueError:
+                        flds = {}
+                    f = flds.get("params")
+                    if f is None:
+                        self.fail("message struct has no params field", {"method": m, "struct": tn})
+                    elif f["type"] != pt["name"]:
+                        self.fail("message struct params type differs from the declared params", {"method": m, "struct": tn, "got": f["type"], "expected": pt["name"]})
                 if key == "requests":
                     rn = tn[: -len("Request")] + "Response" if tn.endswith("Request") else tn + "Response"
                     if rn not in structs:
